@@ -12,8 +12,15 @@ spec -> code: EnvTransfer_Export enumerates every text up to MaxLen characters o
               as a string and as an element of a sequence, exported and not, in all three modes
               (inline = start_receiving_env bytes, file = start_receiving_env file, meta = the
               counted payload of gen_metadata/_run_depend_like_phase).
-code -> spec: seeded random environments (long values, control characters, 4-byte characters,
-              empty values/sequences, random names) through the same path.
+              Sessions: EnvTransfer_Export also enumerates every way the mappings of a session of 2 (3)
+              transfers can carry the non-exported marker (naming variables / no marker / empty marker)
+              and, for each, EVERY per-variable history (absent, string, sequence; exported or marked; per
+              step); the session goes through ONE processor object, modes rotating, values changing per
+              step, and every transfer is judged against ITS OWN mapping (the expected export flag is
+              derived in the trace spec from the marker of that transfer only).
+code -> spec: seeded random sessions of 1-4 environments over a shared pool of names (long values, control
+              characters, 4-byte characters, empty values/sequences, markers naming variables the mapping
+              does not hold) through the same path.
 Observation : a probe sourced by the daemon itself (the ebuild of the request) writes, for every
               probed name, `declare -p` attributes and the value(s) NUL-separated: bash is the
               decoder.  The processor's PKGCORE_VERIF_TRACE hook gives the protocol lines: declared
@@ -150,7 +157,7 @@ class Session:
                 out.append(json.loads(line))
         return out
 
-    def transfer(self, mode, env, nonexported, probe_names):
+    def transfer(self, mode, env, marker, probe_names):
         """Send one environment, ask the next requests, read the probe; raw observations only."""
         P = self.P
         with open(os.path.join(self.work, "names"), "w") as f:
@@ -161,8 +168,8 @@ class Session:
         except OSError:
             pass
         full = dict(env)
-        if nonexported:
-            full["PKGCORE_NONEXPORTED_VARS"] = " ".join(nonexported)
+        if marker is not None:  # None: the mapping carries no marker at all
+            full["PKGCORE_NONEXPORTED_VARS"] = marker
         res = dict(exc="", hung=False, clean=False)
         enc = "utf-8"
         try:
@@ -276,41 +283,63 @@ class Session:
         return res
 
 
+def marker_of(sc, vars_):
+    """The marker entry of this mapping: None = no entry, "" = empty entry, else the marked names."""
+    nonexp = [v["name"] for v in vars_ if not v["exported"]]
+    kind = sc.get("marker", "named" if nonexp else "absent")
+    if kind == "named":
+        return " ".join(nonexp + list(sc.get("stale", [])))
+    if nonexp:
+        raise tlc.MachineryError(f"scenario marks {nonexp} but its marker is {kind}")
+    return None if kind == "absent" else ""
+
+
+def env_of(vars_):
+    return {v["name"]: (list(v["elems"]) if v["kind"] == "seq" else v["val"]) for v in vars_}
+
+
 def _worker(args):
-    """Runs in a forked process: its own daemon, its own hook file."""
-    idx, work, scenarios, deadline, bisect_budget = args
+    """Runs in a forked process: its own daemon, its own hook file.  A session (list of scenarios) goes
+    through ONE processor object, in order; the daemon is respawned only after an anomaly."""
+    idx, work, sessions, deadline, bisect_budget = args
     ses = Session(work)
     out = []
     try:
-        warm = ses.transfer("inline", {"VERIF_WARM": "1"}, [], ["VERIF_WARM"])
+        warm = ses.transfer("inline", {"VERIF_WARM": "1"}, None, ["VERIF_WARM"])
         if ses.unit is None:
             ses.kill()
-            warm = ses.transfer("inline", {"VERIF_WARM": "1"}, [], ["VERIF_WARM"])
+            warm = ses.transfer("inline", {"VERIF_WARM": "1"}, None, ["VERIF_WARM"])
         if ses.unit is None:
             return dict(idx=idx, error=f"daemon probe did not run: {warm['exc']} {warm['dlg']}", results=[], spawns=ses.spawns)
         budget = [bisect_budget]
 
-        def run(sc, vars_):
-            env = {v["name"]: (list(v["elems"]) if v["kind"] == "seq" else v["val"]) for v in vars_}
-            nonexp = [v["name"] for v in vars_ if not v["exported"]]
-            r = ses.transfer(sc["mode"], env, nonexp, [v["name"] for v in vars_] + sc["stray"])
-            r.update(mode=sc["mode"], vars=vars_, stray=sc["stray"], unit=ses.unit, src=sc["src"])
+        def run(sc, vars_, hist):
+            marker = marker_of(sc, vars_)
+            spawns = ses.spawns
+            r = ses.transfer(sc["mode"], env_of(vars_), marker, [v["name"] for v in vars_] + sc["stray"])
+            r.update(mode=sc["mode"], vars=vars_, stray=sc["stray"], unit=ses.unit, src=sc["src"], marker=marker,
+                     history=list(hist) if ses.spawns == spawns else [])  # what the same processor sent before
+            hist.append(dict(mode=sc["mode"], env=env_of(vars_), marker=marker))
             completed = r["probed"] and r["clean"]
+            if not completed:
+                del hist[:]  # the processor is replaced
             if not completed and len(vars_) > 1 and budget[0] > 0 and time.time() < deadline:
                 budget[0] -= 2
                 h = len(vars_) // 2
-                a, b = run(sc, vars_[:h]), run(sc, vars_[h:])
+                a, b = run(sc, vars_[:h], hist), run(sc, vars_[h:], hist)
                 if any(not (x["probed"] and x["clean"]) for x in a + b):
                     return a + b  # the failure is reproduced by a part: report the parts only
                 return a + b + [r]
             return [r]
 
         skipped = 0
-        for sc in scenarios:
-            if time.time() > deadline and sc["src"] == "random":
-                skipped += 1  # only the random supplement is subject to the time budget
+        for session in sessions:
+            if time.time() > deadline and session[0]["src"] == "random":
+                skipped += len(session)  # only the random supplement is subject to the time budget
                 continue
-            out.extend(run(sc, sc["vars"]))
+            hist = []
+            for sc in session:
+                out.extend(run(sc, sc["vars"], hist))
         return dict(idx=idx, error="", results=out, spawns=ses.spawns, skipped=skipped)
     finally:
         ses.kill()
@@ -343,9 +372,32 @@ def pack(values, modes, per_env, src, r_):
         for s in slots[s0:s0 + per_env]:
             k += 1
             vars_.append(dict(name=mk_name(k), exported=(k % 3 != 0), **s))
-        for mode in modes:
-            scs.append(dict(mode=mode, vars=vars_, stray=[f"STRAY_{k}", f"_stray{k}"], src=src))
+        scs.append([dict(mode=mode, vars=vars_, stray=[f"STRAY_{k}", f"_stray{k}"], src=src) for mode in modes])
     return scs
+
+
+STATE = {"str_x": ("str", True), "str_p": ("str", False), "seq_x": ("seq", True), "seq_p": ("seq", False)}
+
+
+def history_sessions(sess_cases, modes):
+    """Render the spec's sessions: one variable per history, the same names in every step, a different
+    value in every step; the mapping of step j carries the marker as mk[j] says."""
+    out = []
+    for n, c in enumerate(sorted(sess_cases, key=lambda c: c["mk"])):
+        session = []
+        for j, mk in enumerate(c["mk"]):
+            vars_ = []
+            for hi, h in enumerate(c["hists"]):
+                if h[j] == "absent":
+                    continue
+                kind, exported = STATE[h[j]]
+                name = NAME_FORMS[hi % len(NAME_FORMS)].format(f"h{hi}")
+                vars_.append(dict(name=name, kind=kind, exported=exported, val=f"{j}:{hi} 'q\" $n" if kind == "str" else "",
+                                  elems=[f"{j}", f"e{hi} \"'\\"] if kind == "seq" else []))
+            absent = [NAME_FORMS[hi % len(NAME_FORMS)].format(f"h{hi}") for hi, h in enumerate(c["hists"]) if h[j] == "absent"]
+            session.append(dict(mode=modes[(n + j) % len(modes)], vars=vars_, stray=absent, marker=mk, src="export"))
+        out.append(session)
+    return out
 
 
 RANDOM_ALPHABET = (["q", "z", "n", "0", "1", "Q", " ", " ", "\t", "\n", "'", "'", '"', '"', "\\", "\\", "$", "`", "{", "}",
@@ -354,21 +406,38 @@ RANDOM_ALPHABET = (["q", "z", "n", "0", "1", "Q", " ", " ", "\t", "\n", "'", "'"
 
 
 def random_scenarios(r_, n_env, modes):
-    scs = []
-    for e in range(n_env):
-        vars_ = []
-        for j in range(r_.randint(1, 8)):
+    """Random sessions: 1-4 mappings over a shared pool of names sent through one processor; kinds,
+    values, export marks and the way the marker is carried change from step to step."""
+    sessions, e = [], 0
+    while e < n_env:
+        pool = [r_.choice(["R", "r_", "_r", "Rx9_", "rnd_"]) + str(e) + "_" + str(j) + r_.choice(["", "_", "a", "Z0"])
+                for j in range(r_.randint(2, 10))]
+        session = []
+        for _step in range(r_.choice([1, 2, 2, 3, 4])):
+            all_exported = r_.random() < 0.35
+            vars_ = []
+
             def text():
                 ln = r_.choice([0, 1, 2, 3, 5, 8, 13, 40])
                 return "".join(r_.choice(RANDOM_ALPHABET) for _ in range(ln))
-            name = r_.choice(["R", "r_", "_r", "Rx9_", "rnd_"]) + str(e) + "_" + str(j) + r_.choice(["", "_", "a", "Z0"])
-            if r_.random() < 0.35:
-                vars_.append(dict(name=name, kind="seq", val="", elems=[text() for _ in range(r_.randint(0, 5))],
-                                  exported=r_.random() < 0.6))
+            for name in r_.sample(pool, r_.randint(1, len(pool))):
+                exported = all_exported or r_.random() < 0.6
+                if r_.random() < 0.35:
+                    vars_.append(dict(name=name, kind="seq", val="", elems=[text() for _ in range(r_.randint(0, 5))], exported=exported))
+                else:
+                    vars_.append(dict(name=name, kind="str", val=text(), elems=[], exported=exported))
+            sc = dict(mode=r_.choice(modes), vars=vars_, stray=[n for n in pool if n not in {v["name"] for v in vars_}] + [f"STRAY_r{e}"],
+                      src="random")
+            if all(v["exported"] for v in vars_):
+                sc["marker"] = r_.choice(["absent", "absent", "empty"])
             else:
-                vars_.append(dict(name=name, kind="str", val=text(), elems=[], exported=r_.random() < 0.6))
-        scs.append(dict(mode=modes[e % len(modes)], vars=vars_, stray=[f"STRAY_r{e}"], src="random"))
-    return scs
+                sc["marker"] = "named"
+                if r_.random() < 0.3:  # the marker may also name variables the mapping does not hold
+                    sc["stale"] = [n for n in pool if n not in {v["name"] for v in vars_}][:2]
+            session.append(sc)
+            e += 1
+        sessions.append(session)
+    return sessions
 
 
 def b(s):
@@ -441,8 +510,9 @@ def design_runs(ck, out):
 
 def run(ck):
     use_repo()
-    ck.rule = ("one real daemon transfer per (environment, mode); non-trivial = distinct (kind, value, exported, mode) of a "
-               "variable whose value is not purely alphanumeric and that was observed inside the daemon's shell")
+    ck.rule = ("one real daemon transfer per (environment, mode), grouped in sessions that go through one processor object; "
+               "non-trivial = distinct (kind, value, exported, mode) of a variable whose value is not purely alphanumeric and that "
+               "was observed inside the daemon's shell, plus every observed transfer that followed another one on the same processor")
     ck.assumptions = [
         "bash is the decoder: values are read back by a probe the daemon itself sources (declare -p attributes, NUL separated values)",
         "the counted reader's unit is the one the daemon's shell reports for a two-byte character",
@@ -458,35 +528,41 @@ def run(ck):
     if not ck.replay_case:
         th = threading.Thread(target=design_runs, args=(ck, design), daemon=True)
         th.start()
-        cases = ck.export("EnvTransfer_Export", cfg_text=f"CONSTANTS\n MaxLen = {ck.pick(2, 3)}\n MaxWord = {ck.pick(2, 3)}\n",
-                          timeout=ck.pick(120, 600))
+        cases = ck.export("EnvTransfer_Export", timeout=ck.pick(120, 600),
+                          cfg_text=f"CONSTANTS\n MaxLen = {ck.pick(2, 3)}\n MaxWord = {ck.pick(2, 3)}\n SessLen = {ck.pick(2, 3)}\n")
         dbg("export done", len(cases))
         values = sorted("".join(chr(c) for c in x["cp"]) for x in cases if x["k"] == "val")
         words = sorted((x["w"] for x in cases if x["k"] == "word"), key=lambda w: (len(w), w))
         ck.exhaustive = True
-        scs = pack(values, modes, ck.pick(64, 60), "export", r_)
+        # a session = the scenarios sent, in order, through ONE processor object
+        scs = history_sessions([x for x in cases if x["k"] == "sess"], modes)
+        scs += pack(values, modes, ck.pick(64, 60), "export", r_)
         scs += random_scenarios(r_, ck.pick(12, 900), modes)
         if not ck.quick:  # payloads larger than the pipe buffer
             big = "".join(r_.choice(["q", " ", "'", "\\", "é", "\n", '"', "$"]) for _ in range(70000))
-            for mode in modes:
-                scs.append(dict(mode=mode, vars=[dict(name="BIG_1", kind="str", val=big, elems=[], exported=True),
-                                                 dict(name="big_2", kind="seq", val="", elems=[big[:30000], "", big[30000:]], exported=False)],
-                                stray=["STRAY_big"], src="export"))
+            scs.append([dict(mode=mode, vars=[dict(name="BIG_1", kind="str", val=big, elems=[], exported=True),
+                                              dict(name="big_2", kind="seq", val="", elems=[big[:30000], "", big[30000:]], exported=False)],
+                             stray=["STRAY_big"], src="export") for mode in modes])
     else:
         d = ck.replay_case["detail"]
         words = []
-        vars_ = []
-        for n, v in d["env"].items():
-            vars_.append(dict(name=n, kind="seq" if isinstance(v, list) else "str", val="" if isinstance(v, list) else v,
-                              elems=v if isinstance(v, list) else [], exported=n not in d.get("nonexported", [])))
-        scs = [dict(mode=d["mode"], vars=vars_, stray=[], src="replay")]
+
+        def step(mode, env, marker, stray):
+            marked = set((marker or "").split())
+            vars_ = [dict(name=n, kind="seq" if isinstance(v, list) else "str", val="" if isinstance(v, list) else v,
+                          elems=v if isinstance(v, list) else [], exported=n not in marked) for n, v in env.items()]
+            return dict(mode=mode, vars=vars_, stray=stray, src="replay", stale=sorted(marked - set(env)),
+                        marker="named" if marker else ("absent" if marker is None else "empty"))
+        # what the same processor object had sent before belongs to the case
+        scs = [[step(h["mode"], h["env"], h["marker"], []) for h in d.get("history", [])]
+               + [step(d["mode"], d["env"], d.get("marker"), d.get("probe_absent", []))]]
 
     nproc = min(ck.pick(4, 6), max(1, len(scs)))
     deadline = time.time() + ck.pick(38, 700)
     chunks = [scs[k::nproc] for k in range(nproc)]
     args = [(k, os.path.join(work, f"w{k}"), chunks[k], deadline, ck.pick(8, 60)) for k in range(nproc)]
     ctx = multiprocessing.get_context("fork")
-    dbg("scenarios", len(scs), "workers", nproc)
+    dbg("sessions", len(scs), "transfers", sum(len(x) for x in scs), "workers", nproc)
     with ctx.Pool(nproc) as pool:
         outs = pool.map(_worker, args)
     dbg("daemon work done", [(len(o["results"]), o["spawns"], o.get("skipped")) for o in outs])
@@ -507,7 +583,10 @@ def run(ck):
         ck.count()
         hasdecl = r["declared"] is not None
         events.append(dict(tid=tid, i=0, ev="transfer", mode=r["mode"], unit=r["unit"], hasdecl=hasdecl,
-                           declared=r["declared"] if hasdecl else 0, payload=r["payload"], dlg=r["dlg"], probed=r["probed"]))
+                           declared=r["declared"] if hasdecl else 0, payload=r["payload"], dlg=r["dlg"], probed=r["probed"],
+                           marker=dict(present=r["marker"] is not None, names=(r["marker"] or "").split())))
+        if len(r["history"]) > 0 and r["probed"]:
+            ck.nontriv(("session-step", tid))
         meta[(tid, 0)] = r
         if not r["probed"]:
             continue
@@ -518,8 +597,7 @@ def run(ck):
             if o is None:
                 raise tlc.MachineryError(f"probe lost {v['name']}")
             events.append(dict(tid=tid, i=i, ev="var", name=v["name"],
-                               sent=dict(present=True, kind=v["kind"], val=b(v["val"]), elems=[b(x) for x in v["elems"]],
-                                         exported=v["exported"]), obs=o))
+                               sent=dict(present=True, kind=v["kind"], val=b(v["val"]), elems=[b(x) for x in v["elems"]]), obs=o))
             meta[(tid, i)] = v
             txt = v["val"] + "".join(v["elems"])
             if txt and not txt.isalnum():
@@ -530,7 +608,7 @@ def run(ck):
             if o is None:
                 raise tlc.MachineryError(f"probe lost {n}")
             events.append(dict(tid=tid, i=i, ev="var", name=n,
-                               sent=dict(present=False, kind="str", val=[], elems=[], exported=False), obs=o))
+                               sent=dict(present=False, kind="str", val=[], elems=[]), obs=o))
             meta[(tid, i)] = dict(name=n, kind="absent", val="", elems=[], exported=False)
     wbase = len(results)
     if words:
@@ -578,7 +656,7 @@ def run(ck):
         if v["i"] == 0:
             env = {x["name"]: (x["elems"] if x["kind"] == "seq" else x["val"]) for x in r["vars"]}
             p = bytes(r["payload"])
-            ck.violation(v["clause"], dict(mode=r["mode"], env=env, nonexported=[x["name"] for x in r["vars"] if not x["exported"]],
+            ck.violation(v["clause"], dict(mode=r["mode"], env=env, marker=r["marker"], history=r["history"],
                                            unit=r["unit"], declared=r["declared"], payload_bytes=len(p),
                                            payload_chars=len(p.decode("utf-8", "replace")),
                                            non_ascii=any(c > 127 for c in p),
@@ -587,8 +665,9 @@ def run(ck):
             x = meta[(v["tid"], v["i"])]
             o = r["obs"][x["name"]]
             val = x["elems"] if x["kind"] == "seq" else x["val"]
-            ck.violation(v["clause"], dict(mode=r["mode"], name=x["name"], kind=x["kind"], exported=x["exported"],
-                                           env={x["name"]: val} if x["kind"] != "absent" else
-                                           {y["name"]: (y["elems"] if y["kind"] == "seq" else y["val"]) for y in r["vars"]},
-                                           nonexported=[] if x["exported"] else [x["name"]],
+            # replayable: the mapping of this transfer and what the same processor object had sent before
+            ck.violation(v["clause"], dict(mode=r["mode"], name=x["name"], kind=x["kind"], marked_nonexported=not x["exported"],
+                                           value=val, env=env_of(r["vars"]), marker=r["marker"], history=r["history"],
+                                           after_transfers_on_same_processor=len(r["history"]),
+                                           probe_absent=[x["name"]] if x["kind"] == "absent" else [],
                                            observed_state=o["state"], observed=show(o), observed_exported=o["exported"]))
